@@ -146,6 +146,51 @@ def pDict : Nat → P (List (Nat × Option VR))
     | _, _ => none
   | _, _ => none
 
+/-- does the variant of a primitive value suit the VR it sits under (the writer emits the variant's
+bytes, the reader decodes by VR) -/
+def primSuits (vr : VR) : Prim → Bool
+  | .empty => true
+  | .str _ | .strs _ =>
+    [VR.AE, .AS, .CS, .DS, .IS, .LO, .LT, .PN, .SH, .ST, .UC, .UI, .UR, .UT, .UN, .OB].contains vr
+  | .u8 _ => [VR.OB, .UN].contains vr
+  | .i16 _ | .u16 _ => [VR.US, .SS, .OW].contains vr
+  | .i32 _ | .u32 _ => [VR.UL, .SL, .OL].contains vr
+  | .i64 _ | .u64 _ => [VR.UV, .SV, .OV].contains vr
+  | .f32 _ => [VR.FL, .OF].contains vr
+  | .f64 _ => [VR.FD, .OD].contains vr
+  | .tags _ => vr == .AT
+  | .dates _ => [VR.DA, .TM, .DT].contains vr
+
+mutual
+  def Dicom.Ops.Obj.suits : Obj → Bool
+    | .nil => true
+    | .cons _ vr v r => Val.suits vr v && Obj.suits r
+  def Dicom.Ops.Val.suits (vr : VR) : Val → Bool
+    | .prim p => primSuits vr p
+    | .seq items => Items.suits items
+    | .pix _ _ => true
+  def Dicom.Ops.Items.suits : Items → Bool
+    | .nil => true
+    | .cons o r => Obj.suits o && Items.suits r
+end
+
+mutual
+  def Dicom.Ops.Obj.firstBad : Obj → Option (Nat × VR)
+    | .nil => none
+    | .cons t vr v r => match Val.firstBad t vr v with
+      | some x => some x
+      | none => Obj.firstBad r
+  def Dicom.Ops.Val.firstBad (t : Nat) (vr : VR) : Val → Option (Nat × VR)
+    | .prim p => if primSuits vr p then none else some (t, vr)
+    | .seq items => Items.firstBad items
+    | .pix _ _ => none
+  def Dicom.Ops.Items.firstBad : Items → Option (Nat × VR)
+    | .nil => none
+    | .cons o r => match Obj.firstBad o with
+      | some x => some x
+      | none => Items.firstBad r
+end
+
 def actName : Action → String
   | .remove => "remove" | .empty => "empty" | .setVr _ => "setvr" | .set _ => "set" | .setStr _ => "setstr"
   | .setIfMissing _ => "sim" | .setStrIfMissing _ => "ssim" | .replace _ => "rep" | .replaceStr _ => "repstr"
@@ -202,7 +247,7 @@ def handle (line : String) : String :=
   let toks := tokens line
   let fuel := toks.length + 2
   match toks with
-  | "ops" :: "DICT" :: n :: ts =>
+  | "ops" :: "MODE" :: mode :: "DICT" :: n :: ts =>
     match n.toNat? with
     | none => "BAD-LINE"
     | some n =>
@@ -217,15 +262,18 @@ def handle (line : String) : String :=
         if !o0.wf then "MODEL-DIFF initial dump not sorted" else
         match runOps dict fuel k 0 o0 ts 0 0 0 with
         | .error e => e
-        | .ok (_, rest, maxDepth, nErr, kinds) =>
+        | .ok (final, rest, maxDepth, nErr, kinds) =>
           match rest with
           | ["WR", "ile", a, "ele", b, "ebe", c, "defl", d] =>
             let bad := [("ile", a), ("ele", b), ("ebe", c), ("defl", d)].filter (·.2 ≠ "ok")
             match bad with
-            | (ts, st) :: _ => s!"PROP-FAIL class=reachable-object-write-read-{st} ts={ts} all={bad.map (·.1)}"
+            | (ts, st) :: _ =>
+              if !final.suits then
+                s!"PROP-FAIL class=value-type-incompatible-with-vr {st} ts={ts} all={bad.map (·.1)} mode={mode} first={(final.firstBad.map fun (t, v) => (t, repr v))}"
+              else s!"PROP-FAIL class=reachable-object-write-read-{st} ts={ts} all={bad.map (·.1)} mode={mode}"
             | [] =>
               if k = 0 then "ok trivial-noops" else
-              s!"ok len{if k = 1 then "1" else if k ≤ 8 then "short" else "long"}-depth{maxDepth}-{if nErr = 0 then "allok" else "witherr"}-kinds{popCount 16 kinds}"
+              s!"ok {mode}-len{if k = 1 then "1" else if k ≤ 8 then "short" else "long"}-depth{maxDepth}-{if nErr = 0 then "allok" else "witherr"}-kinds{popCount 16 kinds}"
           | _ => "BAD-LINE"
       | _ => "BAD-LINE"
     | _ => "BAD-LINE"
